@@ -157,7 +157,7 @@ func (p *Path) zero(t types.Type) Value {
 	switch u := t.Underlying().(type) {
 	case *types.Basic:
 		if w, _, ok := intInfo(u); ok {
-			return p.tb.BV(0, w)
+			return p.ic(0, w)
 		}
 		switch {
 		case u.Info()&types.IsBoolean != 0:
@@ -414,6 +414,8 @@ func (p *Path) renderStr(s Str) (Str, bool) {
 			out = append(out, p.hexDigit(p.tb.Extract(b, 7, 4)), p.hexDigit(p.tb.Extract(b, 3, 0)))
 		}
 		return Str{b: out}, true
+	case "fmt":
+		return p.renderFmt(s.sym.args)
 	case "concat":
 		var out []*Term
 		for _, a := range s.sym.args {
@@ -439,4 +441,90 @@ func (m *Map) len() int {
 		return 0
 	}
 	return m.n
+}
+
+
+// renderFmt renders Sprintf(format, args...) when the format is concrete and every
+// verb/argument pair has a determined byte length: %s/%v of strings and of values
+// with a String() method rendered as hex, %d/%v of constant integers, %x of bytes.
+func (p *Path) renderFmt(args []Value) (Str, bool) {
+	f, ok := args[0].(Str).concrete()
+	if !ok {
+		return Str{}, false
+	}
+	rest := args[1:]
+	var out []*Term
+	ai := 0
+	for i := 0; i < len(f); i++ {
+		c := f[i]
+		if c != '%' {
+			out = append(out, p.tb.BV(uint64(c), 8))
+			continue
+		}
+		i++
+		if i >= len(f) {
+			return Str{}, false
+		}
+		verb := f[i]
+		if verb == '%' {
+			out = append(out, p.tb.BV('%', 8))
+			continue
+		}
+		if ai >= len(rest) {
+			return Str{}, false
+		}
+		a := rest[ai]
+		ai++
+		iv, isI := a.(Iface)
+		if !isI || iv.t == nil {
+			return Str{}, false
+		}
+		switch v := iv.v.(type) {
+		case Str:
+			if verb != 's' && verb != 'v' {
+				return Str{}, false
+			}
+			r, ok := p.renderStr(v)
+			if !ok {
+				return Str{}, false
+			}
+			out = append(out, r.b...)
+		case *Term:
+			if !v.IsConst() || (verb != 'd' && verb != 'v') || v.sort.K == KBool {
+				return Str{}, false
+			}
+			_, signed, isInt := intInfo(iv.t)
+			if !isInt {
+				return Str{}, false
+			}
+			val := v.val
+			if v.sort.K == KBV && signed {
+				val = v.Signed()
+			}
+			out = append(out, p.strConst(val.String()).b...)
+		case Array, Slice:
+			// value with a String() method (crypto.Hash / Key: hex) or %x of bytes
+			var bs []*Term
+			if arr, ok := v.(Array); ok {
+				for _, e := range arr {
+					t, ok := e.(*Term)
+					if !ok {
+						return Str{}, false
+					}
+					bs = append(bs, t)
+				}
+			} else {
+				bs = termsOf(v.(Slice))
+			}
+			hasString := p.e.prog.LookupMethod(iv.t, nil, "String") != nil
+			if !(verb == 'x' || ((verb == 's' || verb == 'v') && hasString)) {
+				return Str{}, false
+			}
+			r, _ := p.renderStr(Str{sym: &SymStr{kind: "hex", args: []Value{Str{b: bs}}}})
+			out = append(out, r.b...)
+		default:
+			return Str{}, false
+		}
+	}
+	return Str{b: out}, true
 }
